@@ -209,6 +209,10 @@ class Result:
                 self.known.append(f)
             self.count('known_finding_hits')
             return
+        if isinstance(replay, dict) and isinstance(replay.get('input_text'), str) and 'history' not in replay:
+            from . import sim        # a run judged after its neighbours in one process (sim.run_chains): the replay needs them too
+            if replay['input_text'] in sim.HISTORY:
+                replay = dict(replay, history=sim.HISTORY[replay['input_text']])
         self.violations.append((key, what, replay))
 
     def finish(self, extra_cov: dict | None = None) -> int:
